@@ -44,7 +44,7 @@ def shrink(exe_cmd, case, still_fails, budget=120):
     while changed and time.time() - t0 < budget:
         changed = False
         for i in range(1, len(toks)):
-            if not re.match(r'^-?\d+(/\d+)?$', toks[i]) or toks[i] in cand[:2]: continue
+            if not re.match(r'^-?\d+(/\d+)?$', toks[i]) or len(toks[i]) == 16 or toks[i] in cand[:2]: continue
             trial_lines = []
             for c in cand:
                 if c == toks[i]: continue
@@ -91,8 +91,9 @@ def decide(spec, group, tier, seed, replay=None):
     gen = core.Gen(seed)
     if replay:
         rj = json.load(open(replay))
-        cases = [Case(l, kind=('orc' if l.split()[0].startswith('o.') else 'cmp'), tag='replay',
-                      check=spec.get('replay_check')) for l in rj['lines']]
+        from .props_mixed import halves_equal_tokens
+        cases = [Case(l, kind=('orc' if l.split()[0].startswith(('o.', 'mp.')) else 'cmp'), tag='replay',
+                      check=(halves_equal_tokens if l.startswith('mp.') else spec.get('replay_check'))) for l in rj['lines']]
     else:
         cases = []
         corpus_dir = os.path.join(core.VERIF, 'corpus', pid)
@@ -169,7 +170,7 @@ def decide(spec, group, tier, seed, replay=None):
                 notes.append('search ran %d additional oracle cases' % len(extra))
 
             # shrink the first oracle failure
-            if orc_fails and not replay:
+            if orc_fails and not replay and not cases[orc_fails[0][0]].line.startswith('mp.'):
                 i, why = orc_fails[0]
                 c = cases[i]
                 chk = c.check or all_zero
@@ -181,6 +182,25 @@ def decide(spec, group, tier, seed, replay=None):
                         orc_fails.insert(0, (len(cases) - 1, chk(core.parse_vals(o), o)))
                 except Exception as e:  # shrinking is best effort
                     notes.append('shrink failed: %r' % e)
+
+    # ---- 3b. implementation-only oracles that live in another harness group ---------------------
+    for xgroup, xgen in spec.get('extra', []):
+        with core.Scratch() as scr:
+            exe, err, t_h = core.build_harness(scr, xgroup['name'], xgroup['sources'], xgroup.get('repo_sources', ()),
+                                               xgroup.get('flags', ()), xgroup.get('libs', ('-lgmpxx', '-lgmp')))
+            if exe is None:
+                broken.append('harness %s does not compile against the working tree: %s' % (xgroup['name'], (err or '')[-1200:]))
+                continue
+            xcases = xgen(core.Gen(seed + 17), tier) if not replay else [c for c in cases if c.line.split()[0].startswith('mp.')]
+            xo = core.run_lines([exe], [c.line for c in xcases])
+            for c, o in zip(xcases, xo):
+                if not replay:
+                    cases.append(c); impl_out[len(cases) - 1] = o
+                why = (c.check or all_zero)(core.parse_vals(o), o)
+                if why:
+                    k = known_match(known, pid, c.line)
+                    if k: known_hits.append((k, c.line))
+                    else: orc_fails.append((cases.index(c), why))
 
     # ---- 4. verdict ----------------------------------------------------------------------------
     for k, line in known_hits[:0]: pass
